@@ -542,6 +542,39 @@ func c04Decl(c *Ctx) error {
 	return err
 }
 
+// c04BgPos enumerates every background-position layer of 1-4 tokens over the five keywords and one representative of
+// every offset class the code distinguishes (zero number / zero percentage / zero length, 50%, 100%, whole percentage,
+// fractional percentage, negative percentage, length, function), in both modes of KeepCSS2.
+func c04BgPos(c *Ctx) error {
+	st := c.R.StartStage("bgpos", "exhaustive: every background-position layer of 1-4 tokens over {left,right,top,bottom,center} and 11 offset representatives (0, 0%, 0px, 50%, 100%, 10%, 10.5%, -5%, 5px, calc(1px + 2px), 50.0%), plus every two-layer value built from a fixed set of 24 layers; real css.Minify vs model.c04.decl (structured branch for valid positions, index-faithful branch otherwise) and spec.c04.holds; non-trivial = the minifier changed the text")
+	st.Exhaustive = true
+	alpha := []string{"left", "right", "top", "bottom", "center", "0", "0%", "0px", "50%", "100%", "10%", "10.5%", "-5%", "5px", "calc(1px + 2px)", "50.0%"}
+	var cases []c04Case
+	var rec func(prefix []string, n int)
+	rec = func(prefix []string, n int) {
+		if len(prefix) > 0 {
+			cases = append(cases, c04Case{prop: "background-position", value: strings.Join(prefix, " "), tag: fmt.Sprintf("len%d", len(prefix))})
+		}
+		if n == 0 {
+			return
+		}
+		for _, a := range alpha {
+			rec(append(append([]string{}, prefix...), a), n-1)
+		}
+	}
+	rec(nil, 4)
+	layers := []string{"0", "0 0", "top", "left", "center", "right bottom", "left 5px top", "left 5px top 3px", "right 10% bottom 20%", "right 5px bottom 3px", "center top 0", "left 0 top 0",
+		"50% 50%", "0% 0%", "bottom 10% right", "center bottom 5%", "right 0 center", "10px", "top left", "calc(1px + 2px) 0px", "right 10.5% bottom 20%", "left 0 bottom", "center", "100% 0"}
+	for _, a := range layers {
+		for _, b := range layers {
+			cases = append(cases, c04Case{prop: "background-position", value: a + "," + b, tag: "layers2", css2: len(a)%2 == 0})
+		}
+	}
+	err := c04RunCases(c, st, cases, true)
+	st.End()
+	return err
+}
+
 // ---------- whole stylesheets ----------
 
 func c04Selector(r *h.RNG) string {
